@@ -74,12 +74,15 @@ def scan(ctx, n, off, points, measure):
     ctx.claim('each_value_is_the_measure_of_that_combination', S.sym_and(*good))
 
 
-def same_start(ctx, k, master, n=6, by_index=False):
+def same_start(ctx, k, master, n=6, by_index=False, stypes=None):
     lib = ctx.lib
     recs = [ctx.arr('s%d' % j, n, -10.0, 10.0) for j in range(k)]
     keep = [[v + 0.0 for v in r] for r in recs]
     dt = 0.5
-    cl = lib.Cluster(recs, dt, master_index=master)
+    cl = lib.Cluster(recs, dt, master_index=master, **({} if stypes is None else {'stypes': stypes}))
+    if stypes is not None:
+        want_t = [stypes] * k if isinstance(stypes, str) else stypes
+        ctx.claim('signal_types_as_requested', all(isinstance(cl.signal_by_index(j), lib.AccSignal) == (want_t[j] == 'acc') for j in range(k)), stypes)
     start, end = 0, 1   # seconds: samples 0..int(1/0.5)+1 -> [0:3]
     cl.same_start(start=start, end=end)
     lo, hi = 0, int(end / dt) + 1
@@ -102,7 +105,7 @@ def same_start(ctx, k, master, n=6, by_index=False):
     ctx.claim('section_average_by_index_same', ctx.eq(sig.get_section_average(start=lo, end=hi, index=True), m_av, 10.0))
 
 
-def time_match(ctx, n, steps, lag, k=2, master=0, lags=None):
+def time_match(ctx, n, steps, lag, k=2, master=0, lags=None, stypes=None):
     """signal `1 - master`... every non-master signal is the master delayed (lag>0) or advanced (lag<0) by |lag|."""
     lib = ctx.lib
     base = ctx.arr('m', n, -10.0, 10.0)
@@ -127,7 +130,7 @@ def time_match(ctx, n, steps, lag, k=2, master=0, lags=None):
         else:
             vals = bl[-L:] + f
         recs.append(ctx.np.array(vals))
-    cl = lib.Cluster(recs, 0.01, master_index=master)
+    cl = lib.Cluster(recs, 0.01, master_index=master, **({} if stypes is None else {'stypes': stypes}))
     # precondition: within the search window only the true lag has zero misfit
     bm = bl
     for j in range(k):
@@ -180,6 +183,11 @@ def obligations(tier, seed):
     for k in (2, 3, 4):
         for master in range(k):
             yield Ob('same_start', {'k': k, 'master': master})
+    # AccSignal members ('acc') and mixed clusters behave like plain Signal members
+    yield Ob('same_start', {'k': 3, 'master': 1, 'stypes': 'acc'})
+    yield Ob('same_start', {'k': 3, 'master': 2, 'stypes': ['acc', 'custom', 'acc']})
+    yield Ob('time_match', {'n': 8, 'steps': 2, 'lag': 0, 'k': 3, 'master': 0, 'lags': [1, 0], 'stypes': 'acc'}, query_ms=60000, timeout_s=900)
+    yield Ob('time_match', {'n': 8, 'steps': 2, 'lag': 0, 'k': 3, 'master': 1, 'lags': [-1, 1], 'stypes': ['custom', 'acc', 'acc']}, query_ms=60000, timeout_s=900)
     for steps in ((2, 3) if q else (2, 3, 4)):
         for lag in range(-(steps - 1), steps):
             # negative lags at steps >= 3 make every running-minimum comparison a free quadratic inequality: smaller n
